@@ -95,15 +95,18 @@ class SerialDevice:
             k = r.randrange(0, min(4, n))
             cuts = sorted(set(r.sample(range(1, n), k))) + [n] if n > 1 else [n]
         prev = 0
+        t_act = None
         for c in cuts:
             t = at_us - (len(data) - c) * BYTE_US
-            self._deliver(data[prev:c], t)
+            t_act = self._deliver(data[prev:c], t)
             prev = c
+        return t_act          # actual arrival of the last byte (us)
 
     def _deliver(self, chunk, at_us):
         t = max(at_us * US, self._last_deliver + US, self.loop.time())
         self._last_deliver = t
         self.loop.at(t, self._arrive, chunk)
+        return int(round(t * 1e6))
 
     def _arrive(self, chunk):
         if self.protocol is None:
@@ -169,7 +172,7 @@ class LubaGW(SerialDevice):
         payload = [self.tick >> 8, self.tick & 0xFF, 0,
                    ((etype & 3) << 6) | (info & 0x3F)] + list(tail)
         self.nmsg += 1
-        self.send_bytes(luba_frame(0x31, payload), at_us, (key, self.nmsg))
+        return self.send_bytes(luba_frame(0x31, payload), at_us, (key, self.nmsg))
 
     def on_frame(self, cmd, payload, unit, raw):
         now = self.world.now_us()
@@ -234,7 +237,7 @@ class LubaGW(SerialDevice):
         lat1 = self.lat.draw(self.name, "c1", idx)
         conf_arrival = end + 3000 + lat1
         if not lost_conf:
-            self.event(0, bits, [tx_id] + fbytes, conf_arrival, "sent")
+            conf_arrival = self.event(0, bits, [tx_id] + fbytes, conf_arrival, "sent") or conf_arrival
         if twice:
             gap = r.randrange(SETTLE_FF_FF_MIN, 30000)
             start2 = self.line.reserve(end + gap, dur, gap_us=0)
@@ -242,7 +245,7 @@ class LubaGW(SerialDevice):
             conf_arrival = max(conf_arrival + 1000,
                                end + 3000 + self.lat.draw(self.name, "c2", idx))
             if not lost_conf:
-                self.event(0, bits, [tx_id] + fbytes, conf_arrival, "sent2")
+                conf_arrival = self.event(0, bits, [tx_id] + fbytes, conf_arrival, "sent2") or conf_arrival
         outcome = self.bus.transmit(bits, value, twice, end, unit, "own")
         rec["outcome"] = outcome
         rec["conf_arrival_us"] = None if lost_conf else conf_arrival
@@ -313,8 +316,8 @@ class SciGW(SerialDevice):
 
     def status(self, code, at_us, key, d=(0, 0, 0)):
         self.nmsg += 1
-        self.send_bytes(sci_frame((self.device_id << 4) | code, *d), at_us,
-                        (key, self.nmsg))
+        return self.send_bytes(sci_frame((self.device_id << 4) | code, *d), at_us,
+                               (key, self.nmsg))
 
     def on_host_bytes(self, data, unit):
         self.hostbuf += data
@@ -366,7 +369,7 @@ class SciGW(SerialDevice):
         conf_arrival = end + 1500 + lat1 + self.late_confirm.get(idx, 0)
         lost_conf = idx in self.silent_confirm
         if not lost_conf:
-            self.status(0, conf_arrival, "ok")
+            conf_arrival = self.status(0, conf_arrival, "ok") or conf_arrival
         outcome = self.bus.transmit(bits, value, twice, end, unit, "own")
         rec["outcome"] = outcome
         rec["conf_arrival_us"] = None if lost_conf else conf_arrival
